@@ -247,9 +247,9 @@ def run(h):
     h.run_enum([{"mode": "bytes", "data": d.hex(), "mut": "short-exhaustive"} for d in short], prop_bytes, shards=16)
     h.coverage_extra["exhaustive_subdomain"] = "all byte strings of length <= 2; all prim tags under node tags 3..8"
     sh = 8 if h.quick else 16
-    h.run_given(tree_cases, prop_tree, h.n(350, 20000), shards=sh, name="trees")
-    h.run_given(lambda: near_pair(max_leaves), prop_pair, h.n(200, 8000), shards=sh, name="pairs")
-    h.run_given(byte_cases, prop_bytes, h.n(700, 30000), shards=sh, name="bytes")
+    h.run_given(tree_cases, prop_tree, h.n(350, 6000), shards=sh, name="trees")
+    h.run_given(lambda: near_pair(max_leaves), prop_pair, h.n(200, 3000), shards=sh, name="pairs")
+    h.run_given(byte_cases, prop_bytes, h.n(700, 10000), shards=sh, name="bytes")
     if not h.quick:
         from checks import c05_fuzz
         c05_fuzz.campaign(h)
